@@ -899,6 +899,10 @@ func (b *BaseStore) LoadFromSnapshot(ctx context.Context) error {
 		return fmt.Errorf("unable to join log: %w", err)
 	}
 
+	// the snapshot's entries are now in the log: the progress catches up with
+	// the maximum raised above (a store loaded from a snapshot is at rest)
+	b.recalculateReplicationStatus(maxClock)
+
 	if err := b.updateIndex(ctx); err != nil {
 		return fmt.Errorf("unable to update index: %w", err)
 	}
